@@ -103,6 +103,28 @@ def check(F, R, defs=None):
     def hbody(f):
         return _flatten(H.inline_helpers(F, H.body_of(f), max_size=14, skip=tiny, depth=1))
 
+    # methods of the compiler that hand their own (opcode, operands, line) on to definitions::make (a range-checking
+    # `make_checked` wrapper): in the model they are the encoder
+    fwd = set()
+    for p_, g_ in F.fns.items():
+        if not p_.startswith(C) or H.body_of(g_) is None or not g_.get("hir"):
+            continue
+        pids = [pr.get("id") for pr in g_["hir"]["params"] if pr.get("k") == "bind"]
+        for c_ in H.walk(H.body_of(g_)):
+            if c_.get("k") == "call" and c_.get("callee") == "code::definitions::make" and len(c_.get("args", [])) == 3 and \
+                    all(H.local_id(H.strip(a_)) in pids for a_ in c_["args"]):
+                fwd.add(H.last(p_))
+    # ... and whether replace_instruction takes the bytes or the whole instruction
+    ri = F.fn(C + "replace_instruction")
+    ri_whole = bool(ri and ri.get("mir") and "Instructions" in (ri["mir"]["locals"][3].get("ty") if len(ri["mir"]["locals"]) > 3 else ""))
+
+    def as_make(txt):
+        for w in fwd:
+            txt = txt.replace("self.%s(" % w, "definitions::make(")
+        if ri_whole:
+            txt = re.sub(r"(self\.replace_instruction\([^,]+, &definitions::make\(.*\))\)$", r"\1.code)", txt)
+        return txt
+
     def sl(name):
         f = fn(name)
         if f is None:
@@ -111,6 +133,9 @@ def check(F, R, defs=None):
         # are read as the place / value they stand for
         body = hbody(f)
         r = straightline(body)
+        if r is not None and (fwd or ri_whole):
+            st_, calls_, res_ = r
+            r = ({k_: as_make(v_) for k_, v_ in st_.items()}, [as_make(c_) for c_ in calls_], as_make(res_))
         if r is None:
             R.ob("helper-model", name, False, "the helper is no longer straight-line code; the emission verifier's model of it must be re-derived", F.loc(f))
         return f, r
